@@ -21,7 +21,9 @@ class C09(PropBase):
                 "a line of >= 160 KiB is never shown to the line parser, lines the recogniser sees are <= 160 KiB, dropped lines are > 80 KiB, "
                 "and the result is the fold of the recogniser over the remaining lines (c09_long_line_dropped). The driver model and a "
                 "byte-level model of every line parser are tied to the code by running both on generated files under generated schedules "
-                "(debug and release); an oracle checks no panic / no hang / <= 160 KiB read window / over-long line == line removed.",
+                "(debug and release); an oracle checks no panic / no hang / <= 160 KiB read window / over-long line == line removed. "
+                "Round 2: the line model returns the parsed records and finish() builds the canonical symbol table (C08 builder, sorts, "
+                "filters, insert_win_stack_info); c09_table_spec; model and code are compared on the FULL table text.",
         "note": "Trusted: Coq kernel; hand-written models of mod.rs, parser.rs, circular 0.3.0 indices (correspondence-checked, not verified); "
                 "buffer contents abstracted (FIFO contract, checked per case by comparing callback bytes with the input); range-map "
                 "construction in finish() is exercised, not modelled (C08). No axioms.",
